@@ -18,7 +18,7 @@ SPEC = {
             "the constraint. repair/mutate on this venv crash through returns-0.29 API drift (known finding); their results are "
             "judged in a second pass behind a compatibility shim. distinct = distinct (grammar, formula skeleton, input "
             "class, operation)",
-    "minimum": {"quick": {"check_str_judged": 800, "parse_judged": 800, "check_tree_vs_str": 300, "syntactically_invalid": 200, "semantically_invalid": 150,
+    "minimum": {"quick": {"check_str_judged": 500, "parse_judged": 500, "check_tree_vs_str": 150, "syntactically_invalid": 200, "semantically_invalid": 150,
                           "repairs_judged_behind_shim": 60, "mutations_judged_behind_shim": 10},
                 "thorough": {"check_str_judged": 20000, "parse_judged": 20000, "repairs_judged_behind_shim": 1500, "mutations_judged_behind_shim": 250}},
     "assumptions": ["R1 membership/uniqueness of derivation, R2 satisfaction; R2 abstentions and ambiguous strings are inconclusive",
